@@ -1,5 +1,281 @@
-/- Driver for C18 (stub until the property's model is written). -/
+/- Driver for C18: the real qmail-clean main(), spawn.c + qmail-lspawn/rspawn report(), and
+   qmail-send del_dochan() against their models; the oracle is `Nq.Spec.TB` (the predicates the
+   theorems of Props/C18.lean are stated with) evaluated on the implementation's traces.
+   Input lines (see the harness headers):
+     C <chunk> <plan> <in> <trace>
+     S <l|r> <plan> <script> <trace>
+     D <c> <jobs> <slots> <plan> <chunk> <stream> <trace>                                       -/
 import Drv.Util
-open Drv
-def handle (st : Stats) (_line : String) : IO Stats := return { st with cases := st.cases + 1 }
+import Nq.Spec.TrustBoundary
+
+open Nq Drv
+
+def hexNat2 (n : Nat) : String := String.ofList [hexDigit (n / 16 % 16).toUInt8, hexDigit (n % 16).toUInt8]
+
+def hexRaw (b : Bytes) : String :=
+  String.ofList (b.foldr (fun x acc => hexDigit (x / 16) :: hexDigit (x % 16) :: acc) [])
+
+def planOf (s : String) : Option (List Nat) := (unhex s).map (·.map UInt8.toNat)
+
+def disagree (st : Stats) (msg : String) : IO Stats := do
+  IO.println s!"DISAGREE {msg}"
+  return { st with disagree := st.disagree + 1 }
+
+def oracleFail (st : Stats) (msg : String) : IO Stats := do
+  IO.println s!"ORACLE {msg}"
+  return { st with oracle := st.oracle + 1 }
+
+/-! ### qmail-clean -/
+namespace CleanD
+open Nq.Clean
+
+def render : List Ev → List String
+  | [] => []
+  | .cleanup :: r => "o706964" :: render r
+  | .unlink p :: r => ("u" ++ hex p) :: render r
+  | .status b :: r => ("s" ++ hex [b]) :: render r
+
+def parseEv (tok : String) : Option (List Ev) :=
+  match tok.toList with
+  | 'o' :: _ => some [.cleanup]
+  | 'u' :: h => (unhex (String.ofList h)).map (fun p => [.unlink p])
+  | 's' :: h => (unhex (String.ofList h)).map (fun bs => bs.map .status)
+  | _ => none
+
+def parseTrace (toks : List String) : Option (List Ev) :=
+  toks.foldr (fun t acc => match parseEv t, acc with
+    | some e, some l => some (e ++ l)
+    | _, _ => none) (some [])
+
+def handle (st : Stats) (chunk planh inh trace : String) : IO Stats := do
+  match planOf planh, unhex inh with
+  | some plan, some inp =>
+    let h := hashBytes inp
+    let fresh := !st.seen.contains h
+    let reqs := splitReqs [] inp
+    let nontriv := reqs.any (fun q => q.length ≥ 7)
+    let mut st := { st with cases := st.cases + 1, seen := st.seen.insert h,
+                            nontrivial := st.nontrivial + (if fresh && nontriv then 1 else 0) }
+    st := st.bump "clean"
+    let model := ",".intercalate (render (run inp plan) ++ ["e0"])
+    if model != trace then
+      st ← disagree st s!"kind=clean in={inh} chunk={chunk} plan={planh} impl={trace} model={model}"
+    -- cross-check of the two decimal printers (model's fmt_ulong vs Lean's Nat printer)
+    for q in reqs do
+      let ds := (q.drop 5).dropLast
+      if ds.all isDigit && ds.length ≤ 40 && fmtUlong (decVal ds) != fmtNat (decVal ds) then
+        st ← disagree st s!"kind=fmt in={inh} fmtUlong and Nat.repr differ"
+    -- oracle on the implementation's trace
+    let toks := trace.splitOn ","
+    let body := toks.dropLast
+    match parseTrace body, toks.getLast? with
+    | some evs, some "e0" =>
+      if !(Nq.Spec.TB.cleanOK reqs evs) then
+        st ← oracleFail st s!"kind=clean in={inh} chunk={chunk} plan={planh} impl={trace} requests={reqs.length}"
+      else
+        if evs.any (fun e => match e with | .unlink _ => true | _ => false) then st := st.bump "clean_unlinking"
+        if evs.any (fun e => e == .status stERR) then st := st.bump "clean_unlink_failed"
+      if fresh && st.samples < 2 && (paths evs).length ≥ 2 then
+        IO.println s!"SAMPLE kind=clean in={inh} trace={trace}"
+        st := { st with samples := st.samples + 1 }
+    | _, _ => st ← oracleFail st s!"kind=clean in={inh} chunk={chunk} plan={planh} impl={trace} (abnormal end or unparsable trace)"
+    return st
+  | _, _ => disagree st s!"unparsable C line"
+end CleanD
+
+/-! ### spawn -/
+namespace SpawnD
+open Nq.Spawn
+
+def parseOp (tok : String) : Option Op :=
+  match tok.toList with
+  | 'c' :: h => (unhex (String.ofList h)).map .cmd
+  | 'w' :: a :: b :: h => match unhex (String.ofList [a, b]), unhex (if h.isEmpty then "-" else String.ofList h) with
+      | some [s], some bs => some (.out s.toNat bs)
+      | _, _ => none
+  | 'x' :: a :: b :: h => match unhex (String.ofList [a, b]), unhex (String.ofList h) with
+      | some [s], some [w1, w0] => some (.exit s.toNat (w1.toNat * 256 + w0.toNat))
+      | _, _ => none
+  | _ => none
+
+def parseScript (s : String) : Option (List Op) :=
+  if s == "-" then some [] else
+  (s.splitOn ".").foldr (fun t acc => match parseOp t, acc with
+    | some o, some l => some (o :: l)
+    | _, _ => none) (some [])
+
+/-- render model events in the harness's format; `pend` = merged output not yet printed -/
+def render : Bytes → List Ev → List String
+  | pend, [] => (if pend.isEmpty then [] else ["W" ++ hexRaw pend]) ++ ["e0"]
+  | pend, e :: r =>
+    let flush := if pend.isEmpty then [] else ["W" ++ hexRaw pend]
+    match e with
+    | .hello n => render (pend ++ [n.toUInt8]) r
+    | .report d b => render (pend ++ [d.toUInt8] ++ b ++ [0]) r
+    | .openRead p => flush ++ ("o" ++ hex p) :: render [] r
+    | .spawnCall s sd rc a => flush ++ (s!"f{hexNat2 s}:{hex sd}:{hex rc}:{a}") :: render [] r
+    | .overread => ["V"]
+
+/-- the implementation's trace as events: each W is cut into reports (the first one starts with the hello byte) -/
+def parseTrace (toks : List String) : Option (List Ev × Bool) := do
+  let mut evs : List Ev := []
+  let mut first := true
+  let mut normal := false
+  for t in toks do
+    match t.toList with
+    | 'W' :: h =>
+      let bs ← unhex (String.ofList h)
+      let bs' ← (if first then (match bs with | x :: r => some (evs.length, x, r) | [] => none) else some (0, 0, bs))
+      if first then evs := evs ++ [.hello bs'.2.1.toNat]
+      first := false
+      let reps ← Nq.Spec.TB.parseReports (bs.length + 1) bs'.2.2
+      evs := evs ++ reps.map (fun (d, b) => .report d b)
+    | 'o' :: h => let p ← unhex (String.ofList h); evs := evs ++ [.openRead p]
+    | 'f' :: rest =>
+      match (String.ofList rest).splitOn ":" with
+      | [s, sd, rc, a] =>
+        let s' ← unhex s; let sd' ← unhex sd; let rc' ← unhex rc; let a' ← a.toNat?
+        evs := evs ++ [.spawnCall (s'.headD 0).toNat sd' rc' a']
+      | _ => none
+    | ['V'] => evs := evs ++ [.overread]
+    | ['e', '0'] => normal := true
+    | _ => none
+  return (evs, normal)
+
+def handle (st : Stats) (kindS planh scriptS trace : String) : IO Stats := do
+  let kind := if kindS == "l" then Kind.l else Kind.r
+  match planOf planh, parseScript scriptS with
+  | some plan, some script =>
+    let input := script.foldr (fun o acc => match o with | .cmd b => b ++ acc | _ => acc) []
+    let cmds := Nq.Spec.TB.parseCmds (input.length + 1) input
+    let h := hashBytes (scriptS.toUTF8.toList ++ planh.toUTF8.toList ++ kindS.toUTF8.toList)
+    let fresh := !st.seen.contains h
+    let mut st := { st with cases := st.cases + 1, seen := st.seen.insert h,
+                            nontrivial := st.nontrivial + (if fresh && !cmds.isEmpty then 1 else 0) }
+    st := st.bump ("spawn_" ++ kindS)
+    let model := ",".intercalate (render [] (run kind plan script).2)
+    if model != trace then
+      st ← disagree st s!"kind=spawn{kindS} in={scriptS} plan={planh} impl={trace} model={model}"
+    match parseTrace (trace.splitOn ",") with
+    | some (evs, normal) =>
+      let over := evs.any (· == .overread)
+      if over then st := st.bump "rspawn_report_overread_cases"
+      if !(normal || over) then
+        st ← oracleFail st s!"kind=spawn{kindS} in={scriptS} plan={planh} impl={trace} (abnormal end)"
+      else if !(Nq.Spec.TB.opensOK cmds plan evs) then
+        st ← oracleFail st s!"kind=spawn{kindS} in={scriptS} plan={planh} impl={trace} (open/spawn discipline)"
+      else if normal && !(Nq.Spec.TB.reportsOK cmds (Nq.Spec.TB.reportsOf evs)) then
+        st ← oracleFail st s!"kind=spawn{kindS} in={scriptS} plan={planh} impl={trace} commands={cmds.length} reports={(Nq.Spec.TB.reportsOf evs).length} (one report per command)"
+      else
+        if evs.any (fun e => match e with | .spawnCall _ _ _ _ => true | _ => false) then st := st.bump "spawn_child_started"
+      if fresh && st.samples < 4 && cmds.length ≥ 2 && trace.length < 600 then
+        IO.println s!"SAMPLE kind=spawn{kindS} script={scriptS} plan={planh} trace={trace}"
+        st := { st with samples := st.samples + 1 }
+    | none => st ← oracleFail st s!"kind=spawn{kindS} in={scriptS} plan={planh} impl={trace} (unparsable trace / output not a sequence of reports)"
+    return st
+  | _, _ => disagree st s!"unparsable S line"
+end SpawnD
+
+/-! ### qmail-send report reader -/
+namespace SendD
+open Nq.SendReport
+
+def parseJob (s : String) : Option Job :=
+  match (s.splitOn ":").map String.toInt? with
+  | [some id, some refs, some numtodo, some hiteof, some dying, some retry, some ch] =>
+      some ⟨id.toNat, refs, numtodo, hiteof != 0, dying != 0, retry.toNat, ch.toNat⟩
+  | _ => none
+
+def parseSlot (s : String) : Option (Option Slot) :=
+  if s == "-" then some none else
+  match s.splitOn ":" with
+  | [j, delid, mpos, rh] => match j.toNat?, delid.toNat?, mpos.toNat?, unhex rh with
+      | some j, some d, some m, some r => some (some ⟨j, d, m, r⟩)
+      | _, _, _, _ => none
+  | _ => none
+
+def parseList {α : Type} (f : String → Option α) (s : String) : Option (List α) :=
+  (s.splitOn ";").foldr (fun t acc => match f t, acc with
+    | some o, some l => some (o :: l)
+    | _, _ => none) (some [])
+
+def render : Bytes → List Ev → List String
+  | pend, [] => if pend.isEmpty then [] else ["L" ++ hexRaw pend]
+  | pend, e :: r =>
+    let flush := if pend.isEmpty then [] else ["L" ++ hexRaw pend]
+    match e with
+    | .log t => render (pend ++ t) r
+    | .openWrite p => flush ++ ("O" ++ hex p) :: render [] r
+    | .seek pos => flush ++ s!"K{pos}" :: render [] r
+    | .writeD b => flush ++ ("D" ++ hex b) :: render [] r
+    | .openAppend p => flush ++ ("A" ++ hex p) :: render [] r
+    | .bounce t => flush ++ ("B" ++ hex t) :: render [] r
+    | .unlink p => flush ++ ("U" ++ hex p) :: render [] r
+    | .stat p => flush ++ ("T" ++ hex p) :: render [] r
+    | .pq w id dt => flush ++ (s!"Q{if w == 2 then "d" else toString w}:{id}:{dt}") :: render [] r
+
+def renderFinal (st : St) : String :=
+  let flags := if st.slots.isEmpty then "-" else String.ofList (st.slots.map (fun s => if s.isSome then '1' else '0'))
+  let jobs := if st.jobs.isEmpty then "-" else ";".intercalate (st.jobs.map (fun j => s!"{j.refs}/{j.numtodo}"))
+  s!"E{flags}:{usedCount st}:{st.dlen}:{jobs}"
+
+def parseTrace (toks : List String) : Option (List Ev) :=
+  toks.foldr (fun t acc => do
+    let l ← acc
+    match t.toList with
+    | 'L' :: h => let b ← unhex (String.ofList h); pure (.log b :: l)
+    | 'O' :: h => let b ← unhex (String.ofList h); pure (.openWrite b :: l)
+    | 'K' :: h => let n ← (String.ofList h).toNat?; pure (.seek n :: l)
+    | 'D' :: h => let b ← unhex (String.ofList h); pure (.writeD b :: l)
+    | 'A' :: h => let b ← unhex (String.ofList h); pure (.openAppend b :: l)
+    | 'B' :: h => let b ← unhex (String.ofList h); pure (.bounce b :: l)
+    | 'U' :: h => let b ← unhex (String.ofList h); pure (.unlink b :: l)
+    | 'T' :: h => let b ← unhex (String.ofList h); pure (.stat b :: l)
+    | 'Q' :: _ => pure (.pq 0 0 0 :: l)
+    | _ => none) (some [])
+
+def handle (st : Stats) (cS jobsS slotsS planh chunk inh trace : String) : IO Stats := do
+  match cS.toNat?, (if jobsS == "-" then some [] else parseList parseJob jobsS), parseList parseSlot slotsS, planOf planh, unhex inh with
+  | some c, some jobs, some slots0, some plan, some inp =>
+    let slots := slots0     -- "-" alone is one unused slot (concurrency 1)
+    let h := hashBytes (inp ++ slotsS.toUTF8.toList ++ jobsS.toUTF8.toList ++ planh.toUTF8.toList)
+    let fresh := !st.seen.contains h
+    let inflightN := (slots.filter Option.isSome).length
+    let mut st := { st with cases := st.cases + 1, seen := st.seen.insert h,
+                            nontrivial := st.nontrivial + (if fresh && inp.contains 0 && inp.length ≥ 2 then 1 else 0) }
+    st := st.bump (if inflightN > 0 then "send_inflight" else "send_idle")
+    let env : Env := { chan := c, now := 1000000, otherUsed := 0, otherConc := 7 }
+    let r := feed env { slots := slots, jobs := jobs, plan := plan } inp
+    let model := ",".intercalate (render [] r.2 ++ [renderFinal r.1])
+    if model != trace then
+      st ← disagree st s!"kind=send in={inh} c={cS} jobs={jobsS} slots={slotsS} plan={planh} chunk={chunk} impl={trace} model={model}"
+    let toks := trace.splitOn ","
+    match parseTrace toks.dropLast, (toks.getLast?.getD "").splitOn ":" with
+    | some evs, [flagsE, _, dlenS, _] =>
+      let flags := String.ofList (flagsE.toList.drop 1)
+      let okFlags := flags == "-" || (flags.length == slots.length &&
+        (flags.toList.zip slots).all (fun (f, s) => f == '0' || s.isSome))
+      let freed := inflightN - (flags.toList.filter (· == '1')).length
+      let ok := Nq.Spec.TB.sendOK c jobs slots evs && okFlags && (dlenS.toNat?.getD (Nq.Gen.REPORTMAX + 1)) ≤ Nq.Gen.REPORTMAX &&
+                (Nq.Spec.TB.marksOf evs).length ≤ freed
+      if !ok then
+        st ← oracleFail st s!"kind=send in={inh} c={cS} jobs={jobsS} slots={slotsS} plan={planh} chunk={chunk} impl={trace}"
+      else
+        if !(Nq.Spec.TB.marksOf evs).isEmpty then st := st.bump "send_marked_done"
+        if inp.length > Nq.Gen.REPORTMAX then st := st.bump "send_oversized_stream"
+      if fresh && st.samples < 6 && (Nq.Spec.TB.marksOf evs).length ≥ 2 && trace.length < 900 then
+        IO.println s!"SAMPLE kind=send c={cS} slots={slotsS} in={inh} trace={trace}"
+        st := { st with samples := st.samples + 1 }
+    | _, _ => st ← oracleFail st s!"kind=send in={inh} c={cS} jobs={jobsS} slots={slotsS} plan={planh} chunk={chunk} impl={trace} (unparsable trace)"
+    return st
+  | _, _, _, _, _ => disagree st s!"unparsable D line"
+end SendD
+
+def handle (st : Stats) (line : String) : IO Stats := do
+  match fields line with
+  | ["C", chunk, plan, inh, trace] => CleanD.handle st chunk plan inh trace
+  | ["S", kind, plan, script, trace] => SpawnD.handle st kind plan script trace
+  | ["D", c, jobs, slots, plan, chunk, inh, trace] => SendD.handle st c jobs slots plan chunk inh trace
+  | _ => disagree st s!"unparsable line {line.take 200}"
+
 def main : IO Unit := runDriver handle
